@@ -1456,6 +1456,8 @@ def c18_jobs(tier, seed):
             for (lo, hi) in ranges:
                 # slice sinks only: arbitrary symbolic bytes are not a valid prior content of a &mut str (its pre-fills are C05's subject)
                 if (lo, hi) == (0xF0, 0xF4):
+                    if q:
+                        continue                  # four symbolic bytes + symbolic pre-fills: > 12 minutes for one job; thorough only
                     n1 = nmax                     # the shard of complete four-byte UTF-8 sequences
                 for (s, r) in ([(k % 2, (k // 2) % 2)] if q else [(s, r) for s in range(2) for r in (0, 1)]):
                     mn = 2 if s == 0 else 4
